@@ -25,6 +25,7 @@ const (
 	CancelErr = "cancel-err" // cancels the shared context, then fails
 	Gate      = "gate"       // blocks until the caller releases it after Wait returned
 	Barrier   = "barrier"    // meets the other barrier jobs (all must run at once)
+	ErrCtx    = "errctx"     // fails with an error wrapping context.DeadlineExceeded; no context is cancelled
 )
 
 // JobSpec describes one job. Deps index earlier jobs (duplicates allowed).
@@ -32,6 +33,7 @@ type JobSpec struct {
 	Deps   []int  `json:"deps,omitempty"`
 	Out    string `json:"out"`
 	Caller int    `json:"caller,omitempty"` // 0: main caller, 1: second caller thread
+	OwnCtx bool   `json:"own_ctx,omitempty"` // enqueued with its own, already cancelled context
 }
 
 // Scenario is one closed harness.
@@ -47,6 +49,8 @@ type Scenario struct {
 	PreCancel  bool      `json:"precancel,omitempty"`  // cancelled before the first Enqueue
 	Canceller  bool      `json:"canceller,omitempty"`  // a separate thread cancels at any instant
 	Twice      bool      `json:"twice,omitempty"`      // run the whole scenario twice in sequence
+	Census     string    `json:"census,omitempty"`     // census group: threads created must not grow with len(Jobs) inside a group
+	WaitBg     bool      `json:"wait_bg,omitempty"`    // Wait is called with context.Background() (jobs keep the cancellable context)
 }
 
 func (s *Scenario) String() string {
@@ -59,6 +63,9 @@ func (s *Scenario) String() string {
 		c := ""
 		if j.Caller != 0 {
 			c = "@2"
+		}
+		if j.OwnCtx {
+			c += "@cancelledctx"
 		}
 		js = append(js, j.Out+d+c)
 	}
@@ -77,6 +84,9 @@ func (s *Scenario) String() string {
 	}
 	if s.Twice {
 		f += " twice"
+	}
+	if s.WaitBg {
+		f += " waitbg"
 	}
 	return fmt.Sprintf("N=%d%s [%s]", s.N, f, strings.Join(js, " "))
 }
@@ -136,7 +146,11 @@ func jobObj(round, i int) string { return fmt.Sprintf("r%d.job%d", round, i) }
 func (s *Scenario) Body() (func(), *Run) {
 	r := &Run{Sc: s}
 	for i := range s.Jobs {
-		r.Errs = append(r.Errs, fmt.Errorf("job %d failed", i))
+		if s.Jobs[i].Out == ErrCtx {
+			r.Errs = append(r.Errs, fmt.Errorf("job %d inner timeout: %w", i, context.DeadlineExceeded))
+		} else {
+			r.Errs = append(r.Errs, fmt.Errorf("job %d failed", i))
+		}
 	}
 	rounds := 1
 	if s.Twice {
@@ -182,6 +196,20 @@ func (s *Scenario) round(r *Run, round int) {
 		barrier.Add(nb)
 	}
 	handles := make([]*scheduler.ScheduledJob, len(s.Jobs))
+	var ownCtx context.Context
+	for _, j := range s.Jobs {
+		if j.OwnCtx && ownCtx == nil {
+			c, cf := vs.WithCancel(context.Background(), fmt.Sprintf("own%d", round))
+			cf()
+			ownCtx = c
+		}
+	}
+	jctx := func(i int) context.Context {
+		if s.Jobs[i].OwnCtx {
+			return ownCtx
+		}
+		return ctx
+	}
 	mk := func(i int) scheduler.Job {
 		j := s.Jobs[i]
 		obj := jobObj(round, i)
@@ -195,7 +223,7 @@ func (s *Scenario) round(r *Run, round int) {
 				vs.Emit(obj, "start", nil)
 				switch j.Out {
 				case OK:
-				case Err:
+				case Err, ErrCtx:
 					vs.Emit(obj, "end", "err")
 					return r.Errs[i]
 				case Goexit:
@@ -233,7 +261,7 @@ func (s *Scenario) round(r *Run, round int) {
 			for i, j := range s.Jobs {
 				if j.Caller == 1 {
 					vs.Emit("caller", "enq-begin", round*1000+i)
-					handles[i] = sched.Enqueue(ctx, mk(i))
+					handles[i] = sched.Enqueue(jctx(i), mk(i))
 				}
 			}
 			secondDone.Close()
@@ -242,14 +270,18 @@ func (s *Scenario) round(r *Run, round int) {
 	for i, j := range s.Jobs {
 		if j.Caller == 0 {
 			vs.Emit("caller", "enq-begin", round*1000+i)
-			handles[i] = sched.Enqueue(ctx, mk(i))
+			handles[i] = sched.Enqueue(jctx(i), mk(i))
 		}
 	}
 	if second {
 		secondDone.Recv()
 	}
 	vs.Emit("caller", "wait-begin", round)
-	err := sched.Wait(ctx)
+	wctx := ctx
+	if s.WaitBg {
+		wctx = context.Background()
+	}
+	err := sched.Wait(wctx)
 	r.WaitErr[round] = err
 	r.Returned[round] = true
 	vs.Emit("caller", "wait-returned", round)
@@ -309,7 +341,13 @@ func Check(r *Run, ex *vs.Exec) []Finding {
 				hasBarrier = true
 			}
 		}
-		if hasBarrier {
+		hasGate := countOut(s, Gate) > 0
+		if hasGate && !s.usesCancel() {
+			// A gated job only returns after Wait did: C05's premise (every user
+			// function eventually returns) does not hold, nothing to report.
+		} else if hasGate {
+			add("C09", "the call did not return after the context was cancelled while a task was still running; blocked: %s", strings.Join(blocked, "; "))
+		} else if hasBarrier {
 			add("C03", "capacity lost: %d jobs that must run simultaneously (limit %d) never all ran; blocked: %s", countOut(s, Barrier), N, strings.Join(blocked, "; "))
 		} else {
 			add("C05", "deadlock: caller never returned; blocked: %s", strings.Join(blocked, "; "))
@@ -445,7 +483,7 @@ func Check(r *Run, ex *vs.Exec) []Finding {
 					}
 				}
 			}
-			if cancelBefore && werr == nil {
+			if cancelBefore && werr == nil && !s.WaitBg {
 				add("C09", "round %d: Wait returned nil although the context was cancelled before it returned", rd)
 			}
 		}
@@ -472,7 +510,7 @@ func Check(r *Run, ex *vs.Exec) []Finding {
 						okErr = true
 					}
 				}
-				if isCtxErr(werr) && cancelEv != nil {
+				if isCtxErr(werr) && (cancelEv != nil || anyOwnCtx(s)) {
 					okErr = true
 				}
 				if isExitErr(werr) && anyGoexit {
@@ -629,11 +667,20 @@ func Check(r *Run, ex *vs.Exec) []Finding {
 		if st.Waiting > withDeps {
 			add("C19", "state report %+v: Waiting exceeds the %d submitted jobs that have dependencies", st, withDeps)
 		}
-		if wr, ok := waitRetByRound[sr.Round]; ok && r.WaitErr[sr.Round] == nil && vs.HB(wr.VC, sr.VC) {
-			add("C19", "state report %+v emitted after Wait returned normally", st)
+		if wr, ok := waitRetByRound[sr.Round]; ok && r.WaitErr[sr.Round] == nil && !vs.HB(sr.VC, wr.VC) {
+			add("C19", "state report %+v is not ordered before the normal return of Wait (it can be emitted after Wait returned)", st)
 		}
 	}
 	return out
+}
+
+func anyOwnCtx(s *Scenario) bool {
+	for _, j := range s.Jobs {
+		if j.OwnCtx {
+			return true
+		}
+	}
+	return false
 }
 
 func countOut(s *Scenario, out string) int {
